@@ -8,6 +8,7 @@ from common import run_driver
 from httpfam import run_http_templates
 from storefam import gen_many, replay_store, run_templates
 import translate
+import transval
 
 AUDIT = "Audit/C03.lean"
 MODULE = "Xandikos.Theorems.C03"
@@ -20,6 +21,8 @@ def regen(chk):
     chk.extra["translation"] = {"etag_matches": "ok" if text else "unavailable: " + err}
     if err:
         chk.notes.append("translation of webdav.etag_matches unavailable (%s): tied by correspondence on the header grid only" % err)
+    else:
+        transval.validate(chk, ["Etag"])
     return err
 
 
